@@ -222,6 +222,16 @@ def header_diff(a_text, b_text):
 class _P(G._P):
     """the small reader of p21_gen with string literals delimited by the grammar (page directive `\\S\\` takes any
     character, the apostrophe included; `\\X2\\ … \\X0\\` etc.), not by apostrophe counting"""
+    def ws(self):
+        # blanks, comments and the explicit print control directives `\N\` / `\F\` of Part 21 edition 1
+        BS = chr(92)
+        while True:
+            G._P.ws(self)
+            if self.s.startswith(BS + "N" + BS, self.i) or self.s.startswith(BS + "F" + BS, self.i):
+                self.i += 3
+            else:
+                return
+
     def value(self):
         c = self.peek()
         if c != "'":
